@@ -78,6 +78,13 @@ def bounded_oracle(case, impl, model):
         na, nb = int(a.extra.get(k, -1)), int(b.extra.get(k, -1))
         if nb > 1000 + 32 or na > 1000 + 32:
             probs.append(f"route {case.info['route']}: {k} is {na} after {case.info['iters'][0]} iterations and {nb} after {case.info['iters'][1]} (bound 1032)")
+    # every reclaimed slot is on its free list exactly once, so a free list is never longer than its arena
+    for x, tag in ((a, case.info["iters"][0]), (b, case.info["iters"][1])):
+        for dup, nf, na_ in (("dupL", "nfreeL", "nlists"), ("dupR", "nfreeR", "nrecords")):
+            if int(x.extra.get(dup, 0)) != 0:
+                probs.append(f"route {case.info['route']}: after {tag} iterations {x.extra.get(dup)} slots are on the free list more than once (reclaimed twice)")
+            if int(x.extra.get(nf, 0)) > int(x.extra.get(na_, 0)):
+                probs.append(f"route {case.info['route']}: after {tag} iterations the free list ({x.extra.get(nf)}) is longer than the arena ({x.extra.get(na_)})")
     return probs
 
 
